@@ -372,12 +372,14 @@ int SimulateRiscv::load(uint32_t opcode)
 
 int SimulateRiscv::store(uint32_t opcode)
 {
-  const int rd = (opcode >> 7) & 0x1f;
+  // S-type: the value comes from rs2, the low five bits of the offset
+  // sit where other formats have rd.
+  const int rs2 = (opcode >> 20) & 0x1f;
   const int rs1 = (opcode >> 15) & 0x1f;
   const int funct3 = (opcode >> 12) & 0x7;
   int imm = (opcode >> 25) & 0x7f;
 
-  imm = (imm << 5) | funct3;
+  imm = (imm << 5) | ((opcode >> 7) & 0x1f);
 
   if ((imm & 0x800) != 0) { imm |= 0xfffff000; }
   uint32_t ea = reg[rs1] + imm;
@@ -385,13 +387,13 @@ int SimulateRiscv::store(uint32_t opcode)
   switch (funct3)
   {
     case 0:
-      memory->write8(ea, reg[rd]);
+      memory->write8(ea, reg[rs2]);
       break;
     case 1:
-      memory->write16(ea & 0xfffffffe, reg[rd]);
+      memory->write16(ea & 0xfffffffe, reg[rs2]);
       break;
     case 2:
-      memory->write32(ea & 0xfffffffc, reg[rd]);
+      memory->write32(ea & 0xfffffffc, reg[rs2]);
       break;
     default:
       break;
